@@ -4,11 +4,12 @@
    for every name conversion); [compile] instantiates them with lib/Strcase.v. *)
 From Coq Require Import String List NArith Bool.
 From J5V.lib Require Import Outcome Strcase.
-From J5V.model Require Import J5sRefSpec J5sAst Desc J5sWalk J5sLink J5sConvert J5sContract J5sSymbols J5sTypeNames J5sValid J5sCorr.
+From J5V.model Require Entity.
+From J5V.model Require Import J5sEntity J5sRefSpec J5sAst Desc J5sWalk J5sLink J5sConvert J5sContract J5sSymbols J5sTypeNames J5sValid J5sCorr.
 From J5V.gen Require ImportsGen.
 From J5V.model Require RulesDecl RulesWrite.
 From Coq Require Import ZArith.
-From J5V.proofs Require Import J5sProofs J5sContractProofs J5sLinkProofs J5sResolveProofs J5sResolveCompleteProofs J5sServiceProofs J5sTotalProofs J5sSymbolProofs J5sCompileProofs J5sSubPkgProofs J5sDepsProofs J5sNameProofs J5sTypeNameProofs J5sWitnessProofs J5sStrictProofs StrcaseProofs J5sStrcaseProofs J5sInfraProofs J5sRefSpecProofs J5sRulesCompose.
+From J5V.proofs Require Import J5sProofs J5sContractProofs J5sLinkProofs J5sResolveProofs J5sResolveCompleteProofs J5sServiceProofs J5sTotalProofs J5sSymbolProofs J5sCompileProofs J5sSubPkgProofs J5sDepsProofs J5sNameProofs J5sTypeNameProofs J5sWitnessProofs J5sStrictProofs StrcaseProofs J5sStrcaseProofs J5sInfraProofs J5sRefSpecProofs J5sRulesCompose J5sEntityProofs.
 Import ListNotations.
 Local Open Scope N_scope.
 
@@ -438,6 +439,64 @@ Proof.
   split; [exact (topic_imports_from_go_table snake camel screaming)|exact (method_imports_from_go_table snake camel screaming)].
 Qed.
 Print Assumptions C02_construct_imports.
+
+(* ---- entities.  sourcewalk/entity.go does not convert an entity itself: it builds ordinary
+   objects, an enum, a oneof, a service and a topic and hands them to the same visitors.
+   model/J5sEntity.v is that expansion, source to source (expand_jfile); every theorem above
+   applies to the expanded bundle as it stands.  For the entity itself: in every valid bundle
+   that holds an expanded file, the package compiles and, for every entity of the file, the main
+   file has <Name>Keys / <Name>Data / <Name>Status / <Name>State / <Name>EventType (events
+   nested) / <Name>Event to the contract of their declarations (keys / data / events in
+   declared order, numbered from 1; primary keys required; ...), the .service file the
+   <Name>Query service (Get / List / Events: key path parameters, page / query fields) and the
+   .topic file the <Name>Publish topic.  Covered: keys (primary / shard), data, statuses,
+   events; command services, summaries, schemas inside the entity block and query settings are
+   C17's (family ent).  (Enum clause waived for a first status ending in UNSPECIFIED under a
+   name of its own - the recorded finding -: lenient contract.) *)
+Theorem C02_full_with_entities : forall bd dir base imps els e,
+  valid bd = true -> In (BJ (expand_jfile dir base imps els)) bd -> In (XEntity e) els ->
+  let f := expand_jfile dir base imps els in
+  let pkg := join dot dir in
+  exists D, compile bd pkg = Ok D /\
+    (exists df, In df D /\ fl_path df = main_proto_path f /\
+       forall el, In el (entity_main_elements e) ->
+         element_ok to_snake to_camel to_screaming_snake true el (fl_msgs df) (fl_enums df)) /\
+    (exists df ms ds, In df D /\ fl_path df = sub_proto_path f (b "service") /\ In ds (fl_svcs df) /\
+       match query_service pkg e with
+       | EService s => service_linked_ok to_snake to_camel to_screaming_snake true (pkg ++ dot ++ b "service") s ms ds
+       | _ => False
+       end) /\
+    (exists df ms ss, In df D /\ fl_path df = sub_proto_path f (b "topic") /\
+       match publish_topic pkg e with
+       | ETopic t => topic_linked_ok to_snake to_camel to_screaming_snake true (pkg ++ dot ++ b "topic") t ms ss
+       | _ => False
+       end).
+Proof.
+  intros bd dir base imps els e Hv Hin He f pkg.
+  destruct (C02_full_partial bd pkg Hv) as (D & Hc & Hok).
+  - exists (BJ f). split; [exact Hin|reflexivity].
+  - exists D. split; [exact Hc|].
+    exact (entity_contract to_snake to_camel to_screaming_snake true bd dir base imps els e D Hok Hin He).
+Qed.
+Print Assumptions C02_full_with_entities.
+
+(* the expansion agrees with family ent's model of the same code (model/Entity.v, property C17:
+   complete, mutually consistent expansion) on the README example and on an entity with shard
+   keys: same messages per file, fields (JSON name, repeated, optional), enum values, services,
+   methods with input / output / HTTP path; on every run both models are compared with the real
+   compiler on generated entities (C02: ~100 entity files per quick run; C17: ent's stream) *)
+Theorem C02_entity_models_agree :
+  (exists D cs, compile (c02_bundle [b "foo"; b "v1"] c02_foo) (b "foo.v1") = Ok D /\
+                Entity.expand ent_foo = Ok cs /\ c02_shape (b "foo.v1") D = ent_shape cs) /\
+  (exists D cs, compile (c02_bundle [b "acme"; b "users"; b "v1"] c02_acc) (b "acme.users.v1") = Ok D /\
+                Entity.expand ent_acc = Ok cs /\ c02_shape (b "acme.users.v1") D = ent_shape cs).
+Proof. exact entity_models_agree. Qed.
+Print Assumptions C02_entity_models_agree.
+
+Example C02_entity_example :
+  valid (c02_bundle [b "foo"; b "v1"] c02_foo) = true /\
+  exists D, compile (c02_bundle [b "foo"; b "v1"] c02_foo) (b "foo.v1") = Ok D /\ length D = 3%nat.
+Proof. exact readme_entity_valid. Qed.
 
 (* ---- C02 (structure) x C12 / C04 (validation rules, list rules, annotations): family scha's
    writer model (model/RulesWrite.v write_prop: buildField / buildProperty with every rule arm,
